@@ -50,7 +50,8 @@ pub fn mk(width: u8, reserved: u32, spc: u32, slack: u32, name: &str) -> Cfg {
     let mut b = Builder::new(s);
     let last = b.geo.max_cluster();
     let first = if width == 32 { 3 } else { 2 };
-    let keep: Vec<u32> = vec![first, first + 1, first + 2, first + 3, first + 4, last - 1, last];
+    // volumes with slack keep only four clusters free, so a short history exhausts them and reaches the last one
+    let keep: Vec<u32> = if slack > 0 { vec![first, first + 1, last - 1, last] } else { vec![first, first + 1, first + 2, first + 3, first + 4, last - 1, last] };
     b.ballast(&keep);
     b.set_fsinfo(keep.len() as u32, 0xFFFF_FFFF);
     let mut cands = keep.clone();
@@ -74,7 +75,8 @@ pub fn specs(tier: &str) -> Vec<ExpSpec> {
     cfgs.push((mk(32, 32, 8, 7, "b32-spc8-slack7-tail"), 4096));
     let mut v = Vec::new();
     for (c, cs) in cfgs {
-        v.push(ExpSpec::new(c.clone(), alpha::mixed(cs), if th { 5 } else { 3 }));
+        let slack = c.name.contains("slack");
+        v.push(ExpSpec::new(c.clone(), alpha::mixed(cs), if th { 5 } else if slack { 4 } else { 3 }));
         let mut c2 = c;
         c2.name = format!("{}-short", c2.name);
         c2.short = Short::Always;
